@@ -355,3 +355,11 @@ package language
 
 //@ func NewEnvironment
 //@   ensures fresh(result) && result != nil && fresh(result.store) && result.store != nil && len(result.store) == 0 && fresh(result.Aliases) && result.Aliases != nil
+
+// C06: equality is type-sensitive and structural - two objects are equal exactly when they are of the same kind and
+// the library's structural equality (reflect.DeepEqual, uninterpreted) holds between them
+//@ func matchTypes
+//@   inline
+//@ func equalObject
+//@   requires left != nil && right != nil
+//@   bodyensures[C06] tag(left) == tag(right) ==> result == deepEqual(left, right)
